@@ -31,12 +31,20 @@ Proof.
 Qed.
 
 Definition uname (e : entry) : list N := map upcase (format_name e).
-Lemma uname_facts : forall e, wf_entry e = true ->
+(* what vnadata_set_format's parse_format can produce, the untyped "ri" / "ma" / "dB" included *)
+Definition wfu (e : entry) : bool :=
+  wf_entry e || match e_par e, e_form e with PUNDEF, (RI | MA | DB) => true | _, _ => false end.
+Lemma uname_facts_u : forall e, wfu e = true ->
   nocomma (uname e) = true /\ parse_format (uname e) = Some e /\ cstr (format_name e) = format_name e /\
   existsb (fun c => (c =? 127)%N) (format_name e) = false /\ format_name e <> [].
 Proof.
   intros [p f] H. destruct p, f; try discriminate H; vm_compute; repeat split; discriminate.
 Qed.
+Lemma uname_facts : forall e, wf_entry e = true ->
+  nocomma (uname e) = true /\ parse_format (uname e) = Some e /\ cstr (format_name e) = format_name e /\
+  existsb (fun c => (c =? 127)%N) (format_name e) = false /\ format_name e <> [].
+Proof. intros e H. apply uname_facts_u. unfold wfu. rewrite H. reflexivity. Qed.
+
 
 Lemma cstr_app_nonul : forall a b, cstr a = a -> cstr (a ++ b) = a ++ cstr b.
 Proof.
@@ -47,12 +55,12 @@ Qed.
 Lemma format_string_cons : forall e e2 r, format_string (e :: e2 :: r) = format_name e ++ 44%N :: format_string (e2 :: r).
 Proof. reflexivity. Qed.
 
-Lemma format_string_facts : forall l, l <> [] -> Forall (fun e => wf_entry e = true) l ->
+Lemma format_string_facts_u : forall l, l <> [] -> Forall (fun e => wfu e = true) l ->
   cstr (format_string l) = format_string l /\ existsb (fun c => (c =? 127)%N) (format_string l) = false /\
   split_comma [] (map upcase (format_string l)) = map uname l.
 Proof.
   induction l as [| e r IH]; intros Hne Hwf; [congruence |].
-  inversion Hwf as [| ? ? He Hr]; subst. destruct (uname_facts e He) as (U1 & U2 & U3 & U4 & U5).
+  inversion Hwf as [| ? ? He Hr]; subst. destruct (uname_facts_u e He) as (U1 & U2 & U3 & U4 & U5).
   destruct r as [| e2 r].
   - cbn [format_string map]. repeat split; try assumption. apply (split_comma_last (uname e) []). exact U1.
   - destruct (IH ltac:(discriminate) Hr) as (I1 & I2 & I3). rewrite format_string_cons.
@@ -63,12 +71,17 @@ Proof.
       rewrite (split_comma_word (uname e) []) by exact U1. rewrite I3. reflexivity.
 Qed.
 
-Lemma set_format_string : forall l, l <> [] -> Forall (fun e => wf_entry e = true) l -> set_format (format_string l) = Some l.
+Lemma set_format_string_u : forall l, l <> [] -> Forall (fun e => wfu e = true) l -> set_format (format_string l) = Some l.
 Proof.
-  intros l Hne Hwf. destruct (format_string_facts l Hne Hwf) as (A & B & C).
+  intros l Hne Hwf. destruct (format_string_facts_u l Hne Hwf) as (A & B & C).
   unfold set_format. rewrite A, B, C. clear A B C Hne.
   induction Hwf as [| e r He Hr IH]; [reflexivity |]. cbn [map all_some].
-  destruct (uname_facts e He) as (_ & U2 & _). rewrite U2, IH. reflexivity.
+  destruct (uname_facts_u e He) as (_ & U2 & _). rewrite U2, IH. reflexivity.
+Qed.
+Lemma set_format_string : forall l, l <> [] -> Forall (fun e => wf_entry e = true) l -> set_format (format_string l) = Some l.
+Proof.
+  intros l Hne Hwf. apply set_format_string_u; [exact Hne |]. eapply Forall_impl; [| exact Hwf].
+  intros e H. unfold wfu. rewrite H. reflexivity.
 Qed.
 
 (* ---- field accounting ----------------------------------------------------------------------------------- *)
@@ -260,7 +273,7 @@ Section NPD.
 
   Definition npd_wf (o : mobj D) : Prop :=
     (1 <= m_ports o)%nat /\ (Z.of_nat (m_ports o) <= 46340)%Z /\ (Z.of_nat (length (m_freqs o)) <= 2147483647)%Z /\
-    (0 <= m_fprec o <= 1000)%Z /\ (0 <= m_dprec o <= 1000)%Z /\
+    (1 <= m_fprec o <= 1000)%Z /\ (1 <= m_dprec o <= 1000)%Z /\
     (per_f o = false -> length (m_z0 o) = m_ports o).
 
   Lemma step_ports : forall h z, n_ports h = (-1)%Z -> (0 <= z <= 2147483647)%Z ->
@@ -283,19 +296,21 @@ Section NPD.
     intros h l Hne Hwf. unfold nstep. change (record_of [b_parameters; format_string l]) with (RecKey NKParameters [b_parameters; format_string l]).
     cbn [hline_step]. rewrite set_format_string by assumption. reflexivity.
   Qed.
-  Lemma step_fprec : forall h z, (0 <= z <= 1000)%Z ->
+  Lemma step_fprec : forall h z, (1 <= z <= 1000)%Z ->
     nstep (NHeader h) [b_fprecision; v_itext E z] =
     NHeader (mknh (n_ports h) (n_rows h) (n_columns h) (n_frequencies h) (n_params h) (Some z) (n_dprec h) (n_fz0 h) (n_z0 h)).
   Proof.
     intros h z Hz. unfold nstep. change (record_of [b_fprecision; v_itext E z]) with (RecKey NKFprecision [b_fprecision; v_itext E z]).
-    cbn [hline_step]. rewrite nnint_itext by lia. replace (1000 <? z)%Z with false by (symmetry; apply Z.ltb_ge; lia). reflexivity.
+    cbn [hline_step]. rewrite nnint_itext by lia. replace (z <? 1)%Z with false by (symmetry; apply Z.ltb_ge; lia).
+    replace (1000 <? z)%Z with false by (symmetry; apply Z.ltb_ge; lia). reflexivity.
   Qed.
-  Lemma step_dprec : forall h z, (0 <= z <= 1000)%Z ->
+  Lemma step_dprec : forall h z, (1 <= z <= 1000)%Z ->
     nstep (NHeader h) [b_dprecision; v_itext E z] =
     NHeader (mknh (n_ports h) (n_rows h) (n_columns h) (n_frequencies h) (n_params h) (n_fprec h) (Some z) (n_fz0 h) (n_z0 h)).
   Proof.
     intros h z Hz. unfold nstep. change (record_of [b_dprecision; v_itext E z]) with (RecKey NKDprecision [b_dprecision; v_itext E z]).
-    cbn [hline_step]. rewrite nnint_itext by lia. replace (1000 <? z)%Z with false by (symmetry; apply Z.ltb_ge; lia). reflexivity.
+    cbn [hline_step]. rewrite nnint_itext by lia. replace (z <? 1)%Z with false by (symmetry; apply Z.ltb_ge; lia).
+    replace (1000 <? z)%Z with false by (symmetry; apply Z.ltb_ge; lia). reflexivity.
   Qed.
   Lemma step_z0 : forall o h, npd_wf o -> n_ports h = Z.of_nat (m_ports o) ->
     nstep (NHeader h) (b_z0 :: match m_fz0 o with
@@ -597,7 +612,7 @@ Section NPD.
     (per_f o = false -> length (m_z0 o) = m_ports o) /\ length (m_data o) = length (m_freqs o) /\
     Forall (fun m => length m = m_rows o * m_ports o) (m_data o) /\
     (Z.of_nat (m_ports o) <= 46340)%Z /\ (Z.of_nat (length (m_freqs o)) <= 2147483647)%Z /\
-    (0 <= m_fprec o <= 1000)%Z /\ (0 <= m_dprec o <= 1000)%Z /\ fz0_sized o.
+    (1 <= m_fprec o <= 1000)%Z /\ (1 <= m_dprec o <= 1000)%Z /\ fz0_sized o.
 
   Lemma nth_map_i_len : forall A B (f : nat -> A -> list B) (l : list A) k i d, i < length l ->
     nth i (map_i f k l) [] = f (k + i) (nth i l d).
